@@ -123,6 +123,14 @@ def step (spec : Bool) (w : List String) : Option String :=
       let g := Zk.Generated.Bundled.nodes
       some (out (calcWitness g Zk.Generated.Bundled.signals Zk.Generated.Bundled.inputsInfo ins))
     | none => none
+  -- the same from a caller-owned buffer: un-patched it is the bundled graph; a patched buffer holds ANOTHER graph, which this
+  -- driver does not decode (incomparable line)
+  | ["bundled_buf", ins, patch] =>
+    if patch == "-" then
+      match parseInputs ins with
+      | some ins => some (out (calcWitness Zk.Generated.Bundled.nodes Zk.Generated.Bundled.signals Zk.Generated.Bundled.inputsInfo ins))
+      | none => none
+    else some "n/a"
   | _ => none
 
 end Zk.GraphDriver
